@@ -72,3 +72,47 @@ func VerifHarness_C01_send_after_permission_expiry() {
 	vCover(vAnd(vIPEq(peer.IP, p.IP), peer.Port == p.Port), "C01.cover_send_to_the_bound_peer_itself")
 	vReach("end")
 }
+
+// A CreatePermission for a peer that also has a live channel binding is a permission refresh like any other: a
+// success means the permission exists with a full timeout counted from now - whether the earlier permission (the
+// one the ChannelBind installed) is still there or has already expired.
+//
+//verif:props=C07,C01 replay=model bounds="one allocation with one channel binding (arbitrary valid number, arbitrary IPv4 peer); its permission optionally expired; then CreatePermission for exactly that ip:port (or the same IP on another port) with arbitrary credential verdicts"
+func VerifHarness_C07_create_permission_for_a_bound_peer() {
+	s := vNewSrv(false, false)
+	c1 := allocation.VUDPAddr4()
+	a := s.alloc(c1, s.auth.userID)
+	n := proto.ChannelNumber(vU16())
+	p := allocation.VUDPAddr4()
+	vAssume(a.AddChannelBind(allocation.NewChannelBind(n, p, &allocation.VLogger{}), s.cbt, s.pt) == nil)
+	perm := a.GetPermission(p)
+	vAssume(perm != nil)
+	expired := vBool()
+	if expired {
+		vFire(perm.VTimer())
+	}
+	vAdvance(vI64())
+	now := vClock()
+	port := p.Port
+	if vBool() {
+		port = allocation.VPort()
+	}
+	resets := vTimerResets(perm.VTimer())
+	msg := vNewMsg(stun.MethodCreatePermission, stun.ClassRequest, append([]stun.Setter{proto.PeerAddress{IP: p.IP, Port: port}}, vCreds()...)...)
+	req := s.request(c1)
+	_ = handleCreatePermissionRequest(req, msg)
+	r := s.response(req, msg, stun.MethodCreatePermission)
+	if vIsSuccess(r) {
+		np := a.GetPermission(p)
+		vAssert(np != nil, "C07.successful_create_permission_leaves_a_permission")
+		vAssert(np != nil, "C01.successful_create_permission_leaves_a_permission")
+		if np != nil {
+			vAssert(vAnd(vTimerArmed(np.VTimer()), vTimerDeadline(np.VTimer()) == now+int64(s.pt)), "C07.create_permission_for_a_bound_peer_restarts_the_full_timeout")
+			if !expired {
+				vAssert(vTimerResets(perm.VTimer()) == resets+1, "C07.create_permission_refreshes_the_existing_permission")
+			}
+		}
+	}
+	vCover(vAnd(vIsSuccess(r), expired), "C07.cover_reinstall_after_expiry")
+	vReach("end")
+}
